@@ -120,6 +120,41 @@ def base_local2(fl, b, op, depth=0):
     return l, None
 
 
+# panic constructs of the slice that are unreachable for a reason the engines cannot derive: (function, kind, ordinal) -> reason
+PANIC_TABLE = {
+    ("process_node", "panic", 0): "Zip: `length` is Some after the loop because at least two dependencies were required just before",
+}
+
+
+def unwrap_of_checked_get(b, fl, bb, t):
+    """`m.get(k).unwrap()` dominated by the true edge of `m.contains_key(k)` on the same map and key"""
+    ors = fl.origins(t["args"][0], (bb, None))
+    gets = [o for o in ors if o[0] == "call" and o[2].endswith("::get")]
+    if not gets:
+        # Option passed by value: the receiver local is defined by the get call
+        a = t["args"][0]
+        ds = fl.defs_of.get(a[1][0], [])
+        for di in ds:
+            _, db, dj = fl.defs[di]
+            if db >= 0 and dj is None and (callee_name(b.term(db)) or "").endswith("::get"):
+                gets.append(("call", db, callee_name(b.term(db))))
+    for g in gets:
+        gt = b.term(g[1])
+        if len(gt["args"]) < 2:
+            continue
+        gm = fl.origins(gt["args"][0], (g[1], None))
+        gk = fl.origins(gt["args"][1], (g[1], None))
+        for cb, ct in b.calls():
+            if not (callee_name(ct) or "").endswith("::contains_key") or len(ct["args"]) < 2:
+                continue
+            if fl.origins(ct["args"][0], (cb, None)) != gm or fl.origins(ct["args"][1], (cb, None)) != gk:
+                continue
+            res = V.executable_under(fl.facts, b, site_values={(b.id, cb): ("b", False)})
+            if bb not in res.blocks:
+                return "unwrap of map.get(k) that is unreachable unless map.contains_key(k) held (test at line %s)" % ct.get("l")
+    return None
+
+
 def forced_locals(fl, b, base):
     """locals to bind to the subject: the base local and, when it is an element read with a constant index,
     every other read of the same element of the same container"""
@@ -154,7 +189,7 @@ def run(facts, rep, tier):
     rep.tables["partial_accessors"] = {k: sorted(v) for k, v in acc.items()}
     rep.floor("C09.K", "partial accessors of Type", len(acc), 3)
     tvars = V.variants(facts, TYPE)
-    tidx = {n: i for i, n in tvars}
+    cur = {"adt": TYPE, "tidx": {n: i for i, n in tvars}}
     layer = CG.reach(facts, [ENTRY], stop=lambda n: n in facts.bodies and not in_slice_file(facts.bodies[n]))
     layer = {n: v for n, v in layer.items() if in_slice_file(facts.bodies[n])}
     rep.analysed["type_inference_slice_bodies"] = len(layer)
@@ -174,7 +209,7 @@ def run(facts, rep, tier):
         return flows[name]
 
     def has_type(ty):
-        return TYPE in ty
+        return cur["adt"] in ty
 
     def ok_payloads(fname):
         """operands returned as (the Ok/Some payload of) the result of a slice function: list of (bb, operand)"""
@@ -189,11 +224,19 @@ def run(facts, rep, tier):
                     out.append((bb, rv[1]))
         for bb, t in fb.calls():
             if t["dest"] == [0] and not fb.is_cleanup(bb) and "from_residual" not in (callee_name(t) or ""):
+                if callee_name(t) == "std::boxed::box_assume_init_into_vec_unsafe" and t["args"] and t["args"][0][0] != "k":
+                    ffl = flow_of(fname)
+                    root = ffl.root_of(t["args"][0][1][0])
+                    for (wb, wj, place, rv) in ffl.ptr_writes.get(root, ()):
+                        if rv[0] == "agg" and rv[1].get("k") == "array":
+                            for o in rv[2]:
+                                out.append((wb, o))  # vec![a, b]: each element is a payload
+                    continue
                 out.append((bb, None))  # tail call: result of another function
         return out
 
     def ret_admissible(g, bad, caller, depth, seen):
-        key = ("ret", g, caller)
+        key = ("ret", g)
         if key in seen:
             return True, "(recursive)"
         gb = facts.bodies[g]
@@ -204,7 +247,7 @@ def run(facts, rep, tier):
             if op is None:
                 t = gb.term(bb)
                 cn = callee_name(t)
-                if cn in CTOR_VARIANT:
+                if cn in CTOR_VARIANT and cur["adt"] == TYPE:
                     if CTOR_VARIANT[cn] in bad:
                         return False, "%s may return a %s" % (g, CTOR_VARIANT[cn])
                     continue
@@ -245,7 +288,7 @@ def run(facts, rep, tier):
                     continue
                 ok_all = True
                 for w in sorted(bad):
-                    it = V.Interp(facts, tidx[w], subject_calls=(), subject_adt=TYPE)
+                    it = V.Interp(facts, cur["tidx"][w], subject_calls=(), subject_adt=cur["adt"])
                     it.forced = {b.id: {x: V.SUBJ}}
                     res = it.run(b)
                     removed = {(p, q) for p, q in C.edges(b) if (p, q) not in res.edges}
@@ -277,7 +320,7 @@ def run(facts, rep, tier):
         fld = flds[0]
         owner = b.local_adt(place[0])
         a = facts.adts.get(owner)
-        if a is None or a["kind"] != "struct" or not any(f["name"] == fld and f["ty"] == TYPE for f in a["variants"][0]["fields"]):
+        if a is None or a["kind"] != "struct" or not any(f["name"] == fld and f["ty"] == cur["adt"] for f in a["variants"][0]["fields"]):
             return False, "field `%s` of %s is not a Type field of a crate struct" % (fld, owner)
         key = ("field", owner, fld)
         if key in seen:
@@ -318,13 +361,39 @@ def run(facts, rep, tier):
         is_param = 1 <= base <= b.argc
         still = set()
         for w in sorted(bad_variants):
-            it = V.Interp(facts, tidx[w], subject_calls=(), subject_adt=TYPE)
+            it = V.Interp(facts, cur["tidx"][w], subject_calls=(), subject_adt=cur["adt"])
             it.forced = {b.id: forced}
             res = it.run(b, {base: V.SUBJ} if is_param else None)
             if site_bb in res.blocks:
                 still.add(w)
         if not still:
             return True, "unreachable when `%s` is %s (guards on the same value)" % (vname, "/".join(sorted(bad_variants)))
+        # a container assembled in this body: its elements are exactly what is stored into it
+        stores = fl.stores.get(base, [])
+        if stores and not is_param:
+            defs_ok = True
+            for di in fl.defs_of.get(base, []):
+                _, db, dj = fl.defs[di]
+                if db >= 0 and dj is None:
+                    from ..flow import is_empty_ctor
+                    dn = callee_name(b.term(db))
+                    if not (is_empty_ctor(dn) and not b.term(db)["args"]):
+                        defs_ok = False
+                elif db >= 0:
+                    defs_ok = False
+            if defs_ok:
+                n_st = 0
+                for (sb, ops) in stores:
+                    for o in ops:
+                        if o[0] == "k" or not has_type(b.local_ty(o[1][0])):
+                            continue
+                        n_st += 1
+                        ok2, why2 = reachable_under(name, sb, o, set(still), depth + 1, seen + (key,), only_caller=only_caller)
+                        if not ok2:
+                            return False, "`%s` may contain %s: element stored at line %s: %s" % (
+                                vname, "/".join(sorted(still)), b.term(sb).get("l"), why2)
+                if n_st:
+                    return True, "`%s` is assembled here and every stored element is admissible (%d store(s))" % (vname, n_st)
         # per-producer discharge
         ors = fl.origins(["c", [base]], (site_bb, None))
         why = []
@@ -336,7 +405,7 @@ def run(facts, rep, tier):
                 dty = b.local_ty(t["dest"][0]) if len(t["dest"]) == 1 else ""
                 if not has_type(dty):
                     continue  # e.g. the Error payload of an Err(..)
-                if o[2] in CTOR_VARIANT:
+                if o[2] in CTOR_VARIANT and cur["adt"] == TYPE:
                     if CTOR_VARIANT[o[2]] in still:
                         return False, "`%s` may be built by %s" % (vname, o[2].split("::")[-1])
                     why.append(o[2].split("::")[-1])
@@ -354,7 +423,7 @@ def run(facts, rep, tier):
                 return False, "`%s` may be %s: it comes from %s, whose result is arbitrary (%s)" % (
                     vname, "/".join(sorted(still)), o[2], whyc)
             if o[0] == "agg":
-                if o[3].startswith(TYPE + "::"):
+                if o[3].startswith(cur["adt"] + "::"):
                     if o[3].split("::")[-1] in still:
                         return False, "`%s` may be the literal %s" % (vname, o[3])
                     why.append(o[3].split("::")[-1])
@@ -407,6 +476,82 @@ def run(facts, rep, tier):
                        short, "/".join(sorted(bad)), why), b.loc(bb))
     rep.analysed["partial_accessor_sites_in_slice"] = n_sites
     rep.floor("C09.K", "partial-accessor call sites in the type-inference slice", n_sites, 40)
+
+    # ---------------------------------------------------------------- C09.U: every other panic construct of the slice
+    rep.rule("C09.U", "every panic!/unwrap/expect of the type-inference slice is explained structurally: it lies in a function "
+                      "that is partial in an enum-typed parameter (it can only panic for some variants - derived) and every "
+                      "call site of that function excludes those variants; or it unwraps map.get(k) dominated by "
+                      "map.contains_key(k); or it is tabled with a reason.  A new unexplained panic construct is a violation")
+    from .C12 import is_panic_construct
+    partial = {}   # (function, param) -> (adt, bad variants, blocks executable per good variant)
+    for name in sorted(layer):
+        b = facts.bodies[name]
+        if not C.panic_blocks(b) or name in acc:
+            continue
+        for k in range(1, b.argc + 1):
+            adt = b.local_adt(k)
+            a = facts.adts.get(adt) if adt else None
+            if a is None or a["kind"] != "enum":
+                continue
+            vs_ = V.variants(facts, adt)
+            bad, good_blocks = set(), []
+            for idx, vn in vs_:
+                res = V.Interp(facts, idx, subject_calls=(), subject_adt=adt).run(b, {k: V.SUBJ})
+                if res.ret == V.BOT:
+                    bad.add(vn)
+                else:
+                    good_blocks.append(res.normal_blocks())
+            if bad and len(bad) < len(vs_):
+                partial[(name, k)] = (adt, bad, good_blocks)
+    rep.tables["partial_functions"] = {"%s(param %d: %s)" % (n.split("::")[-1], k, v[0].split("::")[-1]): sorted(v[1])
+                                       for (n, k), v in partial.items()}
+    # call sites of partial functions
+    for (pf, k), (adt, bad, _) in sorted(partial.items()):
+        cur["adt"] = adt
+        cur["tidx"] = {n: i for i, n in V.variants(facts, adt)}
+        cs = callers.get(pf, [])
+        for (cn, cbb) in cs:
+            t = facts.bodies[cn].term(cbb)
+            ok, why = reachable_under(cn, cbb, t["args"][k - 1], set(bad))
+            rep.ob("C09.U", "%s|calls %s(param %d)" % (cn, pf.split("::")[-1], k), ok,
+                   "%s: %s" % (pf.split("::")[-1], why) if ok else
+                   "%s can only panic when its %s argument is %s; %s" % (pf.split("::")[-1], adt.split("::")[-1],
+                                                                          "/".join(sorted(bad)), why),
+                   facts.bodies[cn].loc(cbb))
+        if not cs:
+            rep.ob("C09.U", "%s|no-callers" % pf, pf == ENTRY, "%s has no caller in the slice" % pf)
+    cur["adt"] = TYPE
+    cur["tidx"] = {n: i for i, n in tvars}
+    # inventory
+    n_pan = 0
+    for name in sorted(layer):
+        b = facts.bodies[name]
+        if name in acc:
+            continue
+        fl = flow_of(name)
+        ordn = {}
+        for bb, t in b.calls():
+            kind = is_panic_construct(t)
+            if not kind or b.is_cleanup(bb):
+                continue
+            n_pan += 1
+            cnm = (callee_name(t) or "").split("::")[-1]
+            o = ordn.get((kind, cnm), 0)
+            ordn[(kind, cnm)] = o + 1
+            key = "%s|%s:%s#%d" % (name, kind, cnm, o)
+            why = None
+            for (pf, k), (adt, bad, good_blocks) in partial.items():
+                if pf == name and all(bb not in gb for gb in good_blocks):
+                    why = "only reachable when parameter %d is %s (call sites checked above)" % (k, "/".join(sorted(bad)))
+            if why is None and kind == "unwrap/expect" and t["args"] and t["args"][0][0] != "k":
+                why = unwrap_of_checked_get(b, fl, bb, t)
+            if why is None:
+                tab = PANIC_TABLE.get((name.split("::")[-1], kind, o))
+                if tab:
+                    why = "tabled: " + tab
+            rep.ob("C09.U", key, why is not None, why or
+                   "unexplained %s in the type-inference slice: an ill-typed or unusual argument can crash add_node" % kind, b.loc(bb))
+    rep.analysed["other_panic_constructs_in_slice"] = n_pan
 
 
 # ============================================================================ C09.A / C09.E / C09.F
